@@ -339,6 +339,12 @@ static void run_case(const qdesc *q, qscn *s, long idx) {
         if ((q->fl & QF_CNT)) { if (s->count < dn) dn = s->count; if (s->count < sn) sn = s->count; }
         int valid_ops = (q->fl & QF_MEM) ? 1 : (s->dterm && s->dl < s->dmax && (!(q->fl & QF_SRC) || (s->sterm && (!(q->fl & QF_SLEN) || s->sl < s->slen))));
         if ((q->fl & QF_MEM) && (q->fl & QF_SLEN) && s->slen > s->dmax) valid_ops = 0;   /* ESNOSPC documented */
+        if (q->ref == r_cmp || q->ref == r_casecmp || q->ref == r_wcmp || q->ref == r_wicmp || q->ref == r_strprefix) {
+            /* "within the first dmax elements": the comparison looks at no more than dmax (and slen) elements of either operand, like strncmp
+             * (the repository's tests pin strcmp_s("keep it simple", 5, "keep it simple") == 0 and strprefix_s("keep it simple", 4, "keep it") == EOK) */
+            size_t win = s->dmax; if ((q->fl & QF_SLEN) && s->slen < win) win = s->slen;
+            if (dn > win) dn = win; if (sn > win) sn = win;
+        }
         g_fold = s->fold;
         q->ref(dcp, dn, scp, sn, &e);
         if ((q->fl & QF_CH) && !(q->fl & QF_MEM) && s->ch == 0 && !(s->dterm && s->dl < s->dmax)) e.skip = 1;   /* no terminator inside dmax to be found */
@@ -400,7 +406,7 @@ static void gen(int qi) {
     for (size_t sl = 0; sl <= (two ? maxlen : 0); sl++)
     for (unsigned long sc = 0; sc < (two ? ipow(nsym, sl) : 1); sc++)
     for (int dv = 0; dv < 6; dv++)          /* dmax = dl+1 (exact), dl+3, dl (unterminated in dmax), dl-1; 4/5: dmax = dl-1 / dl-2 of a longer terminated string */
-    for (int sv = 0; sv < ((q->fl & QF_SLEN) ? 4 : 1); sv++)   /* slen = sl+1, sl (unterminated object), sl-1, sl+4 */
+    for (int sv = 0; sv < ((q->fl & QF_SLEN) ? 6 : 1); sv++)   /* slen = sl+1, sl (unterminated object), sl-1, sl+4; 4/5: slen = sl-1 / sl-2 of a longer terminated string */
     for (int cv = 0; cv < ((q->fl & QF_CH) ? nsym + 2 : 1); cv++) {
         memset(&s, 0, sizeof s);
         s.dl = dl; s.sl = sl; str_from(s.d, dl, dc, nsym, al); str_from(s.s, sl, sc, nsym, al);
@@ -411,9 +417,10 @@ static void gen(int qi) {
         else if (dv >= 2) s.dl = s.dmax;            /* the object holds exactly dmax non-zero elements */
         s.sterm = 1; s.slen = 0;
         if (q->fl & QF_SLEN) {
-            s.slen = sv == 0 ? sl + 1 : sv == 1 ? sl : sv == 2 ? sl - 1 : sl + 4;
-            if ((sv == 1 || sv == 2) && (sl == 0 || s.slen == 0)) continue;
+            s.slen = sv == 0 ? sl + 1 : sv == 1 ? sl : sv == 2 ? sl - 1 : sv == 3 ? sl + 4 : sv == 4 ? sl - 1 : sl - 2;
+            if ((sv == 1 || sv == 2 || sv >= 4) && (sl == 0 || s.slen == 0 || s.slen > sl)) continue;
             if (sv == 1 || sv == 2) { s.sterm = 0; s.sl = s.slen; }
+            /* sv >= 4: the source string is longer than slen and fully present (terminated) in its object: only slen elements count */
         }
         if (q->fl & QF_MEM) { /* raw operands: lengths are the operand sizes */
             if (dv >= 2) continue; s.dterm = 0; s.dmax = dl ? dl : 1; if (dl == 0) { s.d[0] = al[0]; s.dl = 1; }
